@@ -49,6 +49,15 @@ func (p *planner) analyzeScript() {
 	for i, ppl := range pipeline {
 		p.renewMainAfter[i] = i < len(pipeline)-1 &&
 			ppl.Parser != nil && pipeline[i+1].Parser == nil
+		// WHERE labels[..] of a label filter resolves to the labels alias of its SELECT block:
+		// close the block before a later stage replaces that alias
+		if ppl.LabelFilter != nil && !p.simpleLabelOperation[i] {
+			for _, next := range pipeline[i+1:] {
+				if next.Parser != nil || next.Drop != nil {
+					p.renewMainAfter[i] = true
+				}
+			}
+		}
 	}
 
 	for _, ppl := range pipeline {
